@@ -161,3 +161,63 @@ def stuck_loops(repo: Repo, f: Func) -> List[Tuple[ast.While, str, str]]:
                + ' and cannot mutate them: after one iteration nothing the test depends on changes any more, the loop never ends')
         out.append((loop, 'stuck', why))
     return out
+
+
+def pushback_loops(repo: Repo, f: Func) -> List[Tuple[ast.AST, bool, str]]:
+    """
+    Second narrow rule, for loops that consume a queue: when the body takes an element from the front of a queue
+    (`v = q.popleft()` / `q.pop(0)`) and puts that same element back (`q.appendleft(v)` / `q.insert(0, v)`), the queue is as it
+    was: unless the loop is left on every path that follows the push-back, the next iteration takes the same element again,
+    for ever.  Returns (push-back statement, ok, explanation) per push-back site.
+    """
+    from .cfg import CFG
+    out: List[Tuple[ast.AST, bool, str]] = []
+    if isinstance(f.node, ast.Lambda):
+        return out
+    cfg = None
+    for loop in f.walk():
+        if not isinstance(loop, (ast.While, ast.For)):
+            continue
+        body_nodes = [n for st in loop.body for n in ast.walk(st)]
+        takes = {}
+        for n in body_nodes:
+            if isinstance(n, ast.Assign) and isinstance(n.value, ast.Call) and isinstance(n.value.func, ast.Attribute) and isinstance(n.value.func.value, ast.Name):
+                c = n.value
+                if c.func.attr == 'popleft' or (c.func.attr == 'pop' and c.args and norm(c.args[0]) == '0'):
+                    for t in n.targets:
+                        if isinstance(t, ast.Name):
+                            takes[t.id] = c.func.value.id
+        if not takes:
+            continue
+        for n in body_nodes:
+            if not (isinstance(n, ast.Expr) and isinstance(n.value, ast.Call) and isinstance(n.value.func, ast.Attribute) and isinstance(n.value.func.value, ast.Name)):
+                continue
+            c = n.value
+            back = None
+            if c.func.attr == 'appendleft' and c.args and isinstance(c.args[0], ast.Name):
+                back = c.args[0].id
+            elif c.func.attr == 'insert' and len(c.args) == 2 and norm(c.args[0]) == '0' and isinstance(c.args[1], ast.Name):
+                back = c.args[1].id
+            if back is None or takes.get(back) != c.func.value.id:
+                continue
+            # innermost loop containing the push-back must be `loop`
+            inner = None
+            p = getattr(n, '_parent', None)
+            while p is not None and p is not f.node:
+                if isinstance(p, (ast.While, ast.For)):
+                    inner = p
+                    break
+                p = getattr(p, '_parent', None)
+            if inner is not loop:
+                continue
+            if cfg is None:
+                cfg = CFG(f)
+            exits = [x for x in body_nodes if isinstance(x, (ast.Break, ast.Return, ast.Raise))]
+            r = cfg.reachable(n, avoid_nodes=exits, no_exc=True)
+            again = id(loop) in r
+            out.append((n, not again,
+                        'every path after the push-back leaves the loop' if not again else
+                        f'after `{norm(n)}` puts back the element the loop has just taken from `{c.func.value.id}`, a path returns to the top of the loop without leaving it: '
+                        'the same element is taken and put back for ever'))
+    return out
+
